@@ -17,7 +17,7 @@ from mc import engine
 PROPERTY = 'C12'
 LEVEL = 'model_checking'
 
-ACTIONS = ['R1', 'R2', 'R3', 'R4', 'R5', 'R6', 'R7', 'F1', 'F2', 'F3', 'S1']
+ACTIONS = ['R1', 'R2', 'R3', 'R4', 'R5', 'R6', 'R7', 'F1', 'F2', 'F3', 'S1', 'E1', 'E2']
 _D_ORIG = {'OBSERVER': 'me', 'MYKEY': 42, 'DIRECTIO': 0}
 _STATE = {'D': dict(_D_ORIG)}          # the caller's dictionary, kept and passed again by later R2 actions
 
@@ -155,6 +155,14 @@ def act(name, wd):
         n = fr.add_noise(2.0, 1.0, noise_type='gaussian')
         os.remove(fn)
         return _h(fr.data, fr.fs, fr.ts, n, fr.t_start, fr.source_name, fr.noise_std), info
+    if name in ('E1', 'E2'):
+        # the seeded channelised-noise estimate used for injection onto existing RAW (same configuration, two seeds)
+        fb = sv.PolyphaseFilterbank(num_taps=2, num_branches=8)
+        st = np.array(fb.estimate_channelized_stds(factor=100, seed=21 if name == 'E1' else 22))
+        fb2 = sv.PolyphaseFilterbank(num_taps=2, num_branches=8)
+        st2 = np.array(fb2.estimate_channelized_stds(factor=100, seed=21 if name == 'E1' else 22))
+        info['same_seed_same_estimate'] = bool(np.array_equal(st, st2))
+        return _h(st), info
     if name == 'S1':
         s = sv.DataStream(sample_rate=1e3, fch1=0.0, ascending=True, t_start=1.5, seed=9)
         s.add_noise(0.1, 1.0)
@@ -300,7 +308,7 @@ def case_history(c):
 
 
 # ------------------------------------------------------------------------------------------ copies
-ROUTES = ['synthetic', 'from_data', 'fil', 'h5', 'sliced', 'after_get_waterfall', 'file_sliced']
+ROUTES = ['synthetic', 'from_data', 'fil', 'h5', 'sliced', 'after_get_waterfall', 'file_sliced', 'consolidated', 'dedrifted']
 MUTATIONS = ['data_write', 'add_noise', 'add_signal', 'metadata', 'rng_draw', 'waterfall_header']
 
 
@@ -327,6 +335,13 @@ def _route(name, wd, seed):
     if name == 'after_get_waterfall':
         base.get_waterfall()
         return base
+    if name == 'consolidated':
+        # a frame whose time axis is NOT the default grid: absolute times of a cadence with a gap
+        b2 = stg.Frame(fchans=10, tchans=3, df=2.0, dt=1.0, fch1=1e9, seed=seed + 1, t_start=86400.0 * 3 + 50.0, source_name='SRC')
+        b2.add_noise(4.0)
+        return stg.Cadence([base, b2]).consolidate()
+    if name == 'dedrifted':
+        return stg.dedrift(base, 0.9)
     raise ValueError(name)
 
 
@@ -463,6 +478,9 @@ def run(ctx):
         p = os.path.join(engine.tmproot(), 'baseline_%s.json' % a)
         with open(p) as f:
             base[a] = json.load(f)
+    if base['E1']['digest'] == base['E2']['digest']:
+        ctx.absorb({'n': 0, 'viol': [{'site': 'action:E1', 'failure': 'same_estimate_different_seeds', 'no_reexec': True,
+                                      'params': {}, 'detail': 'estimate_channelized_stds gives the same estimate for seeds 21 and 22'}]})
     hists = []
     for d in range(1, depth + 1):
         for h in itertools.product(ACTIONS, repeat=d):
